@@ -169,6 +169,9 @@ class XMP(protocol_base.IrProtocolBase):
         original_code = code[:]
 
         e_mark, e_space = lead_out
+        if len(code) < 2 or len(code) % 2:
+            raise LeadOutError
+
         mark, space = code[-2:]
         code = code[:-2]
 
